@@ -214,13 +214,13 @@ Definition exposes (b : path) (m : mon) : bool := existsb (fun d => under b d &&
 
 Definition dstep (st : step) (m : mon) : mon :=
   match st with
-  | Mkdir p => add (DE p) m
+  | Mkdir p => add (DE p) (drop (under p) m)       (* a new directory is empty: records below p are stale *)
   | Create p => flag (is_data p) (add (DE p) m)
   | Write p _ => flag (is_data p) (add (DW p) m)
   | FsyncF p => drop (dent_eqb (DW p)) m
   | FsyncD d => drop (fun x => match x with DE q => path_eqb (parent q) d | DW _ => false end) m
   | Unlink p => add (DE p) (drop (fun x => path_eqb (dpath x) p) m)
-  | Rmdir p => add (DE p) (drop (fun x => path_eqb (dpath x) p) m)
+  | Rmdir p => add (DE p) (drop (under p) m)
   | Rmtree p => add (DE p) (drop (under p) m)
   | Rename a b =>
       let m1 := drop (fun x => under b x || dent_eqb (DE a) x) m in          (* target overwritten *)
